@@ -41,7 +41,8 @@ def compileOp (j : Json) : R Json := do
     let v := validate gs s.qc.numQubits s.qc.qmap inputs defs rets
     let c := validateClean gs s.qc.numQubits nIn outs
     let wf := wellFormed gs s.qc.numQubits
-    let extra : List (String × Json) := [("valid", toJson v), ("clean", toJson c), ("wellformed", toJson wf)]
+    let extra : List (String × Json) := [("valid", toJson v), ("clean", toJson c), ("wellformed", toJson wf),
+      ("in_fragment", toJson (inFragment inputs defs rets))]
     let xorPart : List (String × Json) :=
       match rets, outs with
       | [r], [q] =>
